@@ -181,14 +181,14 @@ CHECKS = {
         groups=[G("^TestC06_Script$", 400, 20000)],
         rule="scripts of 1..30 (thorough 50) steps against the real ServeConn with a scripted Handler and a raw reference-codec client: send (any of the 27 kinds except Tflush, "
              "tags from a 16-value universe incl. 0/0xFFFE/0xFFFF, unique marker embedded in the message), complete (a parked handler chosen by index returns a generated R message "
-             "or an error, MessageRerror or plain, incl. texts with '%', texts of 127/128/216 bytes, multi-byte texts, 'duplicate tag'), one third of the steps pipelined without waiting; 1/6 of the sends reuse the tag of a request whose handler is parked. "
+             "or an error, MessageRerror or plain, incl. texts with '%', texts of 127/128/216 bytes, multi-byte texts, 'duplicate tag'; a quarter of the failing handlers return a message together with their error - the error is the result), one third of the steps pipelined without waiting; 1/6 of the sends reuse the tag of a request whose handler is parked. "
              "Both buffered and rendezvous (net.Pipe-like) connections; msize 400..1 MiB. Oracle: multiset of owed replies; every frame must match an owed reply exactly (tag, "
              "content, marker), handler invoked exactly once per dispatched request with the message sent (inbound Tread count clamp applied), duplicate-tag request gets the "
              "duplicate-tag error and no invocation, nothing extra at quiescence. One script in 12 runs on top of 100..300 requests sent back to back and left outstanding "
              "(pipelining depth 127/128/129/255/256/257 and random); one script in 25 contains a pause of 320..420 ms on a connection whose read deadlines run 100 times faster, "
              "i.e. longer than the server's 30 s idle read timeout, with or without handlers still running, after which the connection must still serve. "
              "Non-trivial = handlers completed out of arrival order, or a duplicate-tag step.",
-        require_classes=dict(quick=["duptag", "duptag_tflush", "err_canceled", "err_deadline", "err_wrap9p", "out_of_order_completion", "pipelined", "rendezvous", "buffered", "burst_over_128", "idle_past_read_timeout"], thorough=[]),
+        require_classes=dict(quick=["duptag", "duptag_tflush", "err_canceled", "err_deadline", "err_wrap9p", "out_of_order_completion", "pipelined", "rendezvous", "buffered", "burst_over_128", "idle_past_read_timeout", "message_together_with_error"], thorough=[]),
         assumptions=["handler results fit in msize (the property's proviso)",
                      "a tag is reused only when its state is certain (handler parked, or reply already read), which keeps the oracle exact",
                      "'no reply within 10 s although the handler returned' counts as a missing reply (normal latency is microseconds)"],
@@ -218,12 +218,12 @@ CHECKS = {
              "(returning when their context is cancelled, or only after Stop has been entered; a quarter of them then fail with the context's error, as a cancelled file system does, "
              "and for a walk in place only the session's Clunk of the old entry may fail), or completing normally in a burst at that instant; read/write/stat/wstat requests may share one "
              "open fid (queueing behind its lock), and a third of those have a slow handler goroutine that reaches the session only while Stop is inside that fid's Clunk; in a third of the cases the file system's "
-             "Clunk honours its context (the clunks issued by Stop return when that context is done); optionally the client has "
+             "Clunk honours its context (the clunks issued by Stop return when that context is done), and in a third the clunks issued by Stop report an error (the sweep must go on); optionally the client has "
              "stopped reading replies. Then one fault: read error after 0..30 bytes of a further frame, write error after 0..30 further output bytes (or under a blocked write), "
              "peer close, or context cancel. Oracle: ServeConn returns within 10 s; the context of every parked handler is cancelled; handlers return; Stop ran exactly once; "
-             "afterwards the fid table (verif hook) has nothing bound or locked and every entry the mock handed out has exactly one release; a crash of the process is reported "
+             "afterwards the fid table (verif hook) has nothing bound or locked, every entry the mock handed out has exactly one release and none was used after its release; a crash of the process is reported "
              "through the journal. Non-trivial = at least one handler in flight at the fault; distinct by hash of the scenario.",
-        require_classes=dict(quick=["fault_readerr", "fault_writeerr", "fault_peerclose", "fault_cancel", "client_not_reading", "duptag_in_flight", "fs_call_fails_when_cancelled", "inflight_on_shared_open_fid", "slow_handler_meets_stop", "inflight_walkinplace", "clunk_honours_stop_context"] + ["inflight_" + k for k in "walk clone attach open opendir create read write stat wstat clunk remove".split()],
+        require_classes=dict(quick=["fault_readerr", "fault_writeerr", "fault_peerclose", "fault_cancel", "client_not_reading", "duptag_in_flight", "fs_call_fails_when_cancelled", "inflight_on_shared_open_fid", "slow_handler_meets_stop", "inflight_walkinplace", "clunk_honours_stop_context", "stop_clunks_report_errors"] + ["inflight_" + k for k in "walk clone attach open opendir create read write stat wstat clunk remove".split()],
                              thorough=[f + "×" + k for f in ("readerr", "writeerr", "peerclose", "cancel") for k in "walk clone attach open opendir create read write stat wstat clunk remove".split()]),
         assumptions=["handlers return once cancelled (the property's proviso): parked file-system calls return when their context is done, some only after Stop was entered",
                      "'within bounded time' is tested as 10 s (normal: well under a millisecond); the library's own 30 s I/O deadline never comes into play on these connections",
@@ -333,7 +333,7 @@ CHECKS = {
              "working directory is the export; renames also with names that move the object upwards inside the export ('../k2', '../../k2', ...), half of the renames followed at once by a climb ('..' x 1..4 + an outside target) from the renamed fid; "
              "'time passes' steps that change the exported directory's mtime on the host, followed by a root fid obtained afresh (clone, '..' from below, new attach) and an attempt to remove or rename it; "
              "a fifth of the cases on an empty export. No symlinks are created. Oracle after every step: the snapshot (names, types, perms, sizes, contents, inodes, mtimes) of everything "
-             "under top but outside top/export is unchanged; top/export is still the same inode; no returned qid path is the inode of an outside object; no read returned the outside sentinel. "
+             "under top but outside top/export is unchanged; top/export is still the same inode; no returned qid path - of any element of a walk, of a listing entry, of a created, opened or attached file - is the inode of an outside object (the directory that holds the export included); no read returned the outside sentinel. "
              "Non-trivial = a hostile name (containing '..', a separator, NUL, empty, '.' or over-long) was used.",
         require_classes=dict(quick=["hostile_name_used", "empty_export", "file_rooted_export", "server_created_with_empty_root"], thorough=[]),
         assumptions=["decided on this kernel/file system, running as root; symbolic links are outside the guarantee and never created",
@@ -346,7 +346,7 @@ CHECKS = {
         rule="histories of up to 30 (thorough 60) operations on SFileSys(ufs.NewServer(export)) over a small tree: create file (permission bits x open mode), mkdir, walk (incl. '..'), open "
              "(OREAD/OWRITE/ORDWR/OEXEC with and without OTRUNC, also combined with the option bits OCEXEC and ORCLOSE), names that begin with two dots but are not '..' ('..data', '...'), read/write at offsets 0..60 and -1, chmod, truncate (0..4096, 2^63), rename (names from a small alphabet so that collisions and "
              "renames onto existing files/dirs occur), remove, stat and listing through freshly walked fids; a fifth of the histories contain a block in which a fid keeps pointing at a name while the "
-             "object of that name is replaced, through other fids, by one of the other kind (file <-> directory), after which the stale fid is removed/renamed/stat'ed; a sixth contain an open fid that is renamed (successfully or onto something the host refuses) and then written and read, and a sixth list a "
+             "object of that name is replaced, through other fids, by one of the other kind (file <-> directory), after which the stale fid is removed/renamed/stat'ed; a sixth contain an open fid that is renamed (successfully or onto something the host refuses) and then written and read, and a sixth create a plain file under a name that exists as a directory and go on through that fid, a sixth stat a fid reached by a walk ending in '..' directly (name and identity only), a sixth list a "
              "directory, change one of its entries (write, chmod, truncate) without changing the directory, and list it again. Oracle: a twin directory driven by the equivalent direct OS call per operation "
              "(OpenFile(O_CREATE|flags, perm&0777), Mkdir, OpenFile(flags), ReadAt, WriteAt, Truncate, Chmod(mode&0777), rename(2), Remove); after every step the two trees must be identical "
              "(names, types, permission bits, sizes, contents), the session must succeed exactly when the direct operation does, data read through a fid must equal the twin file's bytes, and fresh stats / "
